@@ -132,6 +132,22 @@ func VerifC10_SendToAllSenders() {
 			}
 		}
 	}
+	if failing == 3 && len(pub) == 1 {
+		// a second announcement through the same senders: what was published before
+		// is not rewritten (pubsub keeps the published bytes; they are still queued)
+		first := append([]byte{}, pub[0]...)
+		c2, c2err := cid.Cast([]byte{0x01, 0x55, 0x00, 0x01, 0x5c})
+		verif_Assume(c2err == nil)
+		verif_Assert(Send(context.Background(), c2, nil, senders...) == nil, "the second announcement is sent")
+		pub2 := verif_PubsubPublished(topic)
+		verif_Assert(len(pub2) == 2, "and published")
+		if len(pub2) == 2 {
+			verif_Assert(bytes.Equal(pub2[0], first), "a later announcement does not change the bytes of an earlier one")
+			var m2 message.Message
+			verif_Assert(m2.UnmarshalCBOR(bytes.NewReader(pub2[1])) == nil && m2.Cid == c2, "the second message decodes to the second CID")
+		}
+		pub = pub2
+	}
 	// nothing to announce, or nobody to announce to
 	verif_Assert(Send(context.Background(), cid.Undef, addrs, ps) == nil && Send(context.Background(), c, addrs) == nil, "nothing to announce or no sender: nothing happens")
 	verif_Assert(len(verif_PubsubPublished(topic)) == len(pub), "and nothing is published")
